@@ -115,6 +115,19 @@ double gcirc(double ra1, double dec1,
 }
 
 
+// Cosine of the radius used to find candidate triangles.  The cosine of a
+// radius below ~1e-6 degrees rounds to 1, which describes an empty cap, so
+// the search cap is padded slightly; the exact distance cut is applied to
+// every candidate afterwards.
+static double cos_search_radius(double rad_degrees)
+{
+    double srad = rad_degrees + 1.0e-5;
+    if (srad > 180.0) {
+        srad = 180.0;
+    }
+    return cos( srad*D2R );
+}
+
 HTMC::HTMC(int depth) throw (const char *) {
     init(depth);
 }
@@ -474,7 +487,7 @@ PyObject* Matcher::match(PyObject* ra_array, // all in degrees
     double rad=0, d=0;
     if (nrad == 1) {
         rad = *(double *) PyArray_GETPTR1((PyArrayObject *) radius_array, 0);
-        d = cos( rad*D2R );
+        d = cos_search_radius(rad);
     }
 
     npy_intp ninput = PyArray_SIZE((PyArrayObject *) ra_array);
@@ -486,7 +499,7 @@ PyObject* Matcher::match(PyObject* ra_array, // all in degrees
 
         if (nrad > 1) {
             rad = *(double *) PyArray_GETPTR1((PyArrayObject *) radius_array, i_input);
-            d = cos( rad*D2R );
+            d = cos_search_radius(rad);
         }
 
         // Find the triangles around this point
